@@ -168,28 +168,29 @@ pub fn compare(src: &str, expected: Option<&[NTok]>, out: &mut CaseOut)
 					&& bytes[p] == b'\r'
 					&& !(p + 1 < bytes.len() && bytes[p + 1] == b'\n')
 			};
-			// lexemes the documentation does not settle (a unicode escape of
-			// more than six digits, more than 128 binary digits): whatever
-			// either lexer reports inside such a lexeme is set aside
-			let long_escape_literals: Vec<(usize, usize)> = r
-				.unspecified_starts
-				.iter()
-				.map(|s0| {
-					let end = rt
-						.iter()
-						.filter(|t| t.start == *s0 || (t.start >= *s0 && t.kind.starts_with('E')))
-						.map(|t| t.end)
-						.chain(r.err_extents.iter().filter(|(a, _)| a == s0).map(|(_, b)| *b))
-						.max()
-						.unwrap_or(*s0 + 1);
-					// up to the end of the line for an unterminated literal
-					let eol = bytes[*s0..].iter().position(|b| *b == b'\n').map(|k| *s0 + k).unwrap_or(bytes.len());
-					(*s0, if bytes[*s0] == b'"' { end.max(*s0 + 1).min(eol.max(end)) } else { end })
-				})
-				.collect();
+			// string literals with a unicode escape of more than six digits:
+			// accepted by one lexer, E162 for the other; whatever either
+			// reports inside such a literal is set aside
+			let long_escape_literals: Vec<(usize, usize)> = if r.unspecified.contains(&"long-unicode-escape")
+			{
+				rt.iter()
+					.filter(|t| t.kind.starts_with('Q') || t.kind.starts_with('E'))
+					.filter(|t| {
+						let lit = &bytes[t.start.min(bytes.len())..t.end.min(bytes.len())];
+						lit.windows(3).enumerate().any(|(k, w)| {
+							w == b"\\u{" && lit[k + 3..].iter().take_while(|b| (**b as char).is_ascii_hexdigit()).count() > 6
+						})
+					})
+					.map(|t| (t.start, t.end))
+					.collect()
+			}
+			else
+			{
+				Vec::new()
+			};
 			let norm = |v: &[NTok]| -> Vec<NTok> {
 				v.iter()
-					.filter(|t| !long_escape_literals.iter().any(|(a, b)| t.start < *b && t.end > *a))
+					.filter(|t| !long_escape_literals.iter().any(|(a, b)| t.start >= *a && t.end <= *b))
 					.filter(|t| !(t.kind == "E110" && t.end == t.start + 1 && lone_cr(t.start)))
 					.map(|t| {
 						let mut t = t.clone();
@@ -414,10 +415,20 @@ impl Check for C14
 		// the first-generation lexer takes text; other bytes are C15's subject
 		if let Ok(src) = std::str::from_utf8(bytes)
 		{
-			// an empty file is E101 without a position to speak of
-			if !src.is_empty()
+			// an empty file is E101 without a position to speak of; inputs
+			// that touch behaviour the documentation leaves open (the recorded
+			// disagreements of the two lexers: lone CR, CRLF in an unterminated
+			// literal, long unicode escapes, over-long binary literals) are the
+			// generated streams' business - coverage-guided search would only
+			// keep recombining them
+			let open_question = crate::reflex::lex(bytes).unspecified.iter().any(|u| *u != "return-bang");
+			if !src.is_empty() && !open_question
 			{
 				compare(src, None, &mut out);
+			}
+			else if open_question
+			{
+				out.discarded = Some("input touches behaviour the documentation leaves open".into());
 			}
 		}
 		Some(out)
